@@ -34,7 +34,7 @@ META = {
                     'by a one-letter marker token; no catcode op inside an argument group; \\gdef writes the bottom frame and '
                     'may be shadowed by a live local definition (lookup yields the innermost live definition)',
                     'no fault space exists for this property (sequential refinement only)'],
-    'probe_names': ['dfs_exhaustive', 'declaration_frame', 'change_after_declaration_restored', 'char_let_shadowed', 'local_def_restored', 'global_def_survives', 'let_restored', 'catcode_restored', 'if_survives', 'counter_survives',
+    'probe_names': ['dfs_exhaustive', 'catalogue_scope', 'catalogue_dimen_spelling', 'catalogue_raise', 'declaration_frame', 'change_after_declaration_restored', 'char_let_shadowed', 'local_def_restored', 'global_def_survives', 'let_restored', 'catcode_restored', 'if_survives', 'counter_survives',
                     'nested_depth_ge3', 'env_inside_group', 'group_inside_env', 'math_group', 'cell_scope', 'argument_group',
                     'gdef_shadowed', 'catcode_cow_two_frames'],
     'shrink_budget': 400,
@@ -520,9 +520,63 @@ def run_tex(ops, global_prefix=False):
     return source, expected, got, depth, m
 
 
+CATALOGUE = []
+
+
 def prepare():
     from plasTeX.Logging import disableLogging
     disableLogging()
+    global CATALOGUE
+    if not CATALOGUE:
+        from .. import macrofuzz
+        CATALOGUE = macrofuzz.build()
+
+
+# --------------------------------------------------------------------------
+# catalogue sweep: "macro argument" / "environment" for EVERY user-level macro of plasTeX.Base.LaTeX that takes a
+# braced argument or has a body (sim/macrofuzz.py synthesises the invocation from the class's `args` template):
+# a local definition, a local alias and a category-code change written inside it are gone afterwards, the text after
+# it is still there and the stack is back at its depth.  Dimension arguments are also spelled without a unit / empty /
+# with blanks (LaTeX: "illegal unit of measure", processing goes on).
+
+CAT_INNER = r'\def\na{IN}\let\nb=\nc \catcode`\@=11\relax '
+CAT_TAIL = r' [x\na x\nb x\pr@be]END'
+CAT_EXPECT = '[xna0xnb0xO@be]END'
+DIMEN_SPELLINGS = ['{2pt}', '{2}', '{}', '{ 2pt }', '{2 pt}', r'{.5\textwidth}', '{-1}']
+
+
+def catalogue_ops():
+    import re
+    from .. import macrofuzz
+    out = []
+    for k, ent in enumerate(CATALOGUE):
+        name, text, args, is_env = ent
+        has_dimen = bool(re.search(r':\s*(dimen|length|dimension|glue|skip)', args or '', re.I))
+        for sp in (DIMEN_SPELLINGS if has_dimen else ['{2pt}']):
+            t = macrofuzz.synth(name, args, is_env, k, dimen=sp)
+            if t is None:
+                continue
+            m = re.search(r'\{w\d+\}| body\d+ ', t)
+            if m is None:
+                if sp == '{2pt}':
+                    continue                 # nothing to put a definition in, and the default spelling: nothing to check
+                t2 = t
+            elif m.group(0).startswith('{'):
+                t2 = t[:m.start()] + '{' + CAT_INNER + 'w}' + t[m.end():]
+            else:
+                t2 = t[:m.start()] + ' ' + CAT_INNER + ' body ' + t[m.end():]
+            out.append({'op': 'CAT', 'name': name, 'text': t2, 'dimen': sp})
+    return out
+
+
+def run_cat(op):
+    from plasTeX.TeX import TeX
+    source = PREAMBLE + 'A ' + op['text'] + CAT_TAIL + r'\end{document}'
+    tex = TeX()
+    tex.input(source)
+    doc = tex.parse()
+    got = ''.join(str(doc.textContent).split())
+    return source, got, len(doc.context.contexts)
 
 
 # --------------------------------------------------------------------------
@@ -588,6 +642,9 @@ def enumerate_cases(base_seed, tier):
             body = [{'op': 'DEF_GLOBAL', 'name': 'na', 'id': 7}] if what == 'def' else [{'op': 'LET', 'dst': 'na', 'src': 'nb', 'global': True}]
             out.append({'property': PID, 'seed': core.h64('C04-global', j, what), 'swarm': {'transports': ['tex'], 'global_prefix': True},
                         'ops': [{'op': 'OPEN', 'kind': kind}] + body + [{'op': 'PROBE', 'what': 'na'}, {'op': 'CLOSE'}, {'op': 'PROBE', 'what': 'na'}]})
+    cat = catalogue_ops()
+    for j in range(0, len(cat), 12):
+        out.append({'property': PID, 'seed': core.h64('C04-cat', j), 'swarm': {'transports': ['tex'], 'catalogue': True}, 'ops': cat[j:j + 12]})
     k = 0
     for a in DFS_ALPHABET:
         if a['op'] == 'CLOSE':
@@ -612,6 +669,8 @@ def execute(record):
         res['nontrivial'] = True
         res['digest'] = res['log_digest'] = core.hexdigest(record['ops'])
         return res
+    if record['swarm'].get('catalogue'):
+        return execute_catalogue(record, res)
     ops = balance([o for o in record['ops'] if 'op' in o])
     info, viol, log = {}, [], []
     states = []
@@ -663,6 +722,53 @@ def execute(record):
     res['digest'] = core.hexdigest(ops)
     res['log_digest'] = core.hexdigest(log)
     res['states'] = list(set(states))
+    return res
+
+
+def execute_catalogue(record, res):
+    import signal
+
+    def alarm(signum, frame):
+        raise TimeoutError()
+    viol, log, probes = [], [], {}
+    for op in record['ops']:
+        if op.get('op') != 'CAT':
+            continue
+        old = signal.signal(signal.SIGALRM, alarm)
+        signal.alarm(20)
+        try:
+            source, got, depth = run_cat(op)
+        except BaseException as e:
+            # the invocation does not get through the parser at all: not a statement about grouping
+            probes['catalogue_raise'] = 1
+            log.append([op['name'], 'raise', type(e).__name__])
+            continue
+        finally:
+            signal.alarm(0)
+            signal.signal(signal.SIGALRM, old)
+        log.append([op['name'], op['dimen'], got[-40:], depth])
+        probes['catalogue_' + ('dimen_spelling' if op['dimen'] != '{2pt}' else 'scope')] = 1
+        what = None
+        if not got.endswith('END'):
+            what = 'lost-tail'
+        elif depth != 1:
+            what = 'final-depth'
+        elif not got.endswith(CAT_EXPECT):
+            tail = got[got.rfind('['):]
+            what = 'macro' if 'xna0' not in tail else ('let' if 'xnb0' not in tail else 'catcode')
+        if what:
+            viol.append({'sig': 'C04|tex|catalogue|%s' % what,
+                         'detail': {'macro': op['name'], 'source': source[len(PREAMBLE):][:600], 'got_tail': got[-80:], 'depth': depth,
+                                    'expected_tail': CAT_EXPECT}})
+            break
+    res['violations'] = viol
+    res['probes'] = probes
+    res['steps'] = len(record['ops'])
+    res['nontrivial'] = True
+    res['digest'] = core.hexdigest(record['ops'])
+    res['log_digest'] = core.hexdigest(log)
+    res['sub_evaluations'] = len(log)
+    res['sub_distinct'] = len(log)
     return res
 
 
